@@ -219,6 +219,8 @@ pub enum Plan {
     Attack { bound: u32, full: bool },
     Trace,
     Fault { bound: u32, cfg: FaultCfg },
+    /// two or more workers on one root, context switches at tree-relevant syscalls, bounded preemptions
+    Sched { bound: u32 },
 }
 
 #[derive(Clone, Debug)]
@@ -231,9 +233,11 @@ pub struct Item {
     pub max_exec: u64,
     /// several independent single executions bundled into one item (sweeps): each is a scenario of its own
     pub bundle: Vec<Scenario>,
+    /// Sched: the other concurrent callers (worker 0 is `scen`)
+    pub others: Vec<Scenario>,
 }
 
-fn item(scen: Scenario, plan: Plan, max_exec: u64) -> Item { Item { scen, plan, warm: true, mount_api: 0, max_exec, bundle: vec![] } }
+fn item(scen: Scenario, plan: Plan, max_exec: u64) -> Item { Item { scen, plan, warm: true, mount_api: 0, max_exec, bundle: vec![], others: vec![] } }
 
 /// Argument spellings for the input sweep of mutating operations (C03/C05/C11).
 pub fn sweep_paths() -> Vec<&'static str> {
@@ -342,7 +346,7 @@ pub fn items(prop: &str, tier: &str) -> Vec<Item> {
     let bundle = |name: &str, scens: Vec<Scenario>, size: usize, warm: bool, mount_api: u8, out: &mut Vec<Item>| {
         for (i, ch) in scens.chunks(size).enumerate() {
             let s0 = Scenario { name: format!("{}#{}", name, i), backend: ch[0].backend.clone(), op: ch[0].op.clone(), path: String::new() };
-            out.push(Item { scen: s0, plan: Plan::Trace, warm, mount_api, max_exec: 1, bundle: ch.to_vec() });
+            out.push(Item { scen: s0, plan: Plan::Trace, warm, mount_api, max_exec: 1, bundle: ch.to_vec(), others: vec![] });
         }
     };
     match prop {
@@ -401,6 +405,31 @@ pub fn items(prop: &str, tier: &str) -> Vec<Item> {
             for s in f.clone() { v.push(item(s, Plan::Fault { bound: 1, cfg: FaultCfg { all_syscalls: false, per_class: if th { 3 } else { 1 }, eagain_runs: vec![16], exhaustion: true } }, if th { 20_000 } else { 2_000 })); }
             for s in f.into_iter().filter(|s| !s.path.is_empty()).step_by(2) { v.push(item(s, Plan::Attack { bound: 1, full: false }, 2_000)); }
         }
+        "C12" | "C13" => {
+            let mk = |p: &str| Op::new(if prop == "C12" { "mkdir_all" } else { "remove_all" }).root(ROOT_IN).path(p).mode(0o755);
+            let pairs: Vec<Vec<&str>> = if prop == "C12" {
+                let mut v = vec![vec!["a/b/x/y/z", "a/b/x/y/z"], vec!["a/b/x/y", "a/b/x/y/z/w"], vec!["a/n/p", "a/n/q"], vec!["abs/x/y", "a/b/x/y"]];
+                if th { v.push(vec!["e/m/n", "e/m/n", "e/m/n/o"]); v.push(vec!["up/a/b/q/r", "a/b/q/r/s"]); v.push(vec!["a/b/c/d/k", "a/b/lnk/k"]); }
+                v
+            } else {
+                let mut v = vec![vec!["a", "a"], vec!["a", "a/b/c"], vec!["a/b/c", "a"], vec!["a/b", "a/b"], vec!["e", "e"]];
+                if th { v.push(vec!["a", "a", "a/b"]); v.push(vec!["a/b/lnk", "a/b"]); v.push(vec!["abs/c", "a/b/c"]); }
+                v
+            };
+            if prop == "C13" {
+                for s in mutating_scenarios(th).into_iter().filter(|s| s.op.name == "remove_all") { v.push(item(s, Plan::Attack { bound: if th { 2 } else { 1 }, full: !th }, if th { 60_000 } else { 3_000 })); }
+            }
+            for b in ["E", "K"] {
+                for pr in &pairs {
+                    let scs: Vec<Scenario> = pr.iter().map(|p| Scenario { name: format!("{}/{}", b, mk(p).brief()), backend: b.into(), op: mk(p), path: p.to_string() }).collect();
+                    let bound = if th { if scs.len() == 2 { 2 } else { 1 } } else { 1 };
+                    let mut it = item(scs[0].clone(), Plan::Sched { bound }, if th { 80_000 } else { 4_000 });
+                    it.scen.name = scs.iter().map(|s| s.name.clone()).collect::<Vec<_>>().join(" || ");
+                    it.others = scs[1..].to_vec();
+                    v.push(it);
+                }
+            }
+        }
         _ => {}
     }
     v
@@ -435,9 +464,71 @@ fn postcondition(scen: &Scenario, o: &Obs) -> Option<String> {
     }
 }
 
+/// C12/C13 under concurrency: all callers succeed, agree, and leave exactly the expected tree.
+fn judge_concurrent(prop: &str, it: &Item, scen: &Scenario, w: &World, eo: &ExecOut) -> MResult<Vec<(String, String)>> {
+    use std::os::unix::io::AsRawFd;
+    let mut v = Vec::new();
+    if eo.timeout || eo.horizon_hit { v.push(("hang".into(), "concurrent callers did not terminate within the horizon".into())); return Ok(v); }
+    let mut scs = vec![scen.clone()];
+    scs.extend(it.others.iter().cloned());
+    let after = snapshot(&out("/w"))?;
+    let rootfd = open_path(&out(ROOT_IN))?;
+    let look = |p: &str| openat2(rootfd.as_raw_fd(), p, (O_PATH | O_NOFOLLOW) as u64, RESOLVE_IN_ROOT | RESOLVE_NO_MAGICLINKS).ok().and_then(|fd| fstat(fd.as_raw_fd()));
+    let mut final_ids: Vec<Option<(u64, u64)>> = Vec::new();
+    // C13 promises success only to callers of one and the same path; C12 also to overlapping paths
+    let strict = prop == "C12" || scs.iter().all(|s| s.path == scs[0].path);
+    for (i, s) in scs.iter().enumerate() {
+        match eo.final_obs(i) {
+            None => { v.push(("crash".into(), format!("caller {} ({}) died", i, s.name))); final_ids.push(None); }
+            Some(o) => {
+                if let Some(p) = &o.panic { v.push(("panic".into(), format!("caller {} panicked: {}", i, p))); }
+                else if !o.ok && !strict { /* callers of different paths may lose the race for their parent: the statement promises nothing */ }
+                else if !o.ok { v.push((format!("caller-failed:{}", errname(o.errno.unwrap_or(-1))), format!("caller {} ({}) failed with {} ({}) although concurrent calls must all succeed", i, s.name, errname(o.errno.unwrap_or(-1)), o.msg.clone().unwrap_or_default()))); }
+                final_ids.push(o.fd.as_ref().map(|f| (f.dev, f.ino)));
+            }
+        }
+    }
+    if !v.is_empty() { return Ok(v); }
+    let d = diff(&w.before, &after);
+    if prop == "C12" {
+        for (i, s) in scs.iter().enumerate() {
+            match look(&s.path) {
+                Some(st) if st.is_dir() => { if final_ids[i] != Some((st.dev, st.ino)) { v.push(("handle-mismatch".into(), format!("caller {}: returned handle is not the directory {} resolves to", i, s.path))); } }
+                _ => v.push(("missing".into(), format!("caller {}: {} is not a directory after a successful mkdir_all", i, s.path))),
+            }
+            for (j, t) in scs.iter().enumerate() { if j > i && t.path == s.path && final_ids[i] != final_ids[j] { v.push(("different-dirs".into(), format!("callers {} and {} of the same path got different directories", i, j))); } }
+        }
+        if !d.removed.is_empty() || !d.changed.iter().all(|p| after.get(p).map(|n| n.typ == "dir").unwrap_or(false)) { v.push(("collateral".into(), format!("mkdir_all removed or modified entries: {}", d.text()))); }
+        // every new entry is a directory on the chain of one of the requested paths
+        let finals: Vec<String> = final_ids.iter().filter_map(|id| id.and_then(|id| after.iter().find(|(_, n)| (n.dev, n.ino) == id).map(|(p, _)| p.clone()))).collect();
+        for p in &d.added {
+            let n = &after[p];
+            let on_chain = finals.iter().any(|f| f == p || f.starts_with(&format!("{}/", p)));
+            if n.typ != "dir" || !on_chain { v.push(("extra-entry".into(), format!("mkdir_all created {} ({}) which is not on the chain of a requested path", p, n.typ))); }
+            else if n.perm != 0o755 { v.push(("mode".into(), format!("created directory {} has mode {:o}, not 0755", p, n.perm))); }
+        }
+    } else {
+        for (i, s) in scs.iter().enumerate() { if eo.final_obs(i).map(|o| o.ok).unwrap_or(false) && look(&s.path).is_some() { v.push(("still-there".into(), format!("caller {}: {} still exists after a successful remove_all", i, s.path))); } }
+        if !d.added.is_empty() { v.push(("collateral".into(), format!("remove_all added entries: {}", d.text()))); }
+        // removed entries lie below one of the named paths (as they were before the calls)
+        let rootrel = "outer/parent/root/";
+        let named: Vec<String> = scs.iter().filter_map(|s| {
+            // where the path pointed before anything ran: resolve lexically through the initial snapshot is not needed for these drivers:
+            // every driver path except abs/.. is link-free; map abs -> a/b
+            let p = s.path.replace("abs/", "a/b/");
+            Some(format!("{}{}", rootrel, p))
+        }).collect();
+        for p in &d.removed { if !named.iter().any(|n| p == n || p.starts_with(&format!("{}/", n))) { v.push(("collateral".into(), format!("remove_all removed {} which is not below a named path", p))); } }
+        for p in &d.changed { if !named.iter().any(|n| n.starts_with(&format!("{}/", p)) ) && after.get(p).map(|n| n.typ != "dir").unwrap_or(true) { v.push(("collateral".into(), format!("remove_all modified {}", p))); } }
+    }
+    Ok(v)
+}
+
 /// Judge one execution for `prop`. Returns (key, description) pairs.
 fn judge(prop: &str, it: &Item, scen: &Scenario, w: &World, eo: &ExecOut, counts: &mut BTreeMap<String, u64>) -> MResult<Vec<(String, String)>> {
     let mut v: Vec<(String, String)> = Vec::new();
+    // C13 "never follows links" while a third party swaps directories for symlinks is judged like C03 (containment + frame)
+    let prop = if prop == "C13" && matches!(it.plan, Plan::Attack { .. }) { "C03" } else { prop };
     let obs = eo.final_obs(0);
     let died = obs.is_none();
     let panic = obs.and_then(|o| o.panic.clone());
@@ -468,6 +559,10 @@ fn judge(prop: &str, it: &Item, scen: &Scenario, w: &World, eo: &ExecOut, counts
             }
         }
         _ => {}
+    }
+    if matches!(prop, "C12" | "C13") {
+        v.extend(judge_concurrent(prop, it, scen, w, eo)?);
+        return Ok(v);
     }
     if matches!(prop, "C02" | "C03" | "C10") {
         if eo.timeout || eo.horizon_hit { v.push(("hang".into(), format!("did not terminate within the horizon (timeout={}, horizon={})", eo.timeout, eo.horizon_hit))); return Ok(v); }
@@ -525,10 +620,14 @@ pub fn run_item(prop: &str, tier: &str, idx: usize, only: Option<&Value>) -> MRe
             Plan::Attack { full, .. } => Mode::Attack(mutations_for(&scen.path, *full)),
             Plan::Trace => Mode::Trace,
             Plan::Fault { cfg, .. } => Mode::Fault(cfg.clone()),
+            Plan::Sched { .. } => Mode::Sched,
         };
-        let cfg = ExecCfg { specs: vec![spec_for(&it, scen)], mode, root_out: out(ROOT_IN), horizon: 300_000, timeout_s: 60 };
+        let mut specs = vec![spec_for(&it, scen)];
+        for o in &it.others { specs.push(spec_for(&it, o)); }
+        let nworkers = specs.len();
+        let cfg = ExecCfg { specs, mode, root_out: out(ROOT_IN), horizon: 300_000, timeout_s: 60 };
         let eo = execute(&cfg, ch)?;
-        let otext = outcome_text(&w, &eo, 0);
+        let otext = (0..nworkers).map(|i| outcome_text(&w, &eo, i)).collect::<Vec<_>>().join(" || ");
         if std::env::var("VMC_DEBUG").is_ok() {
             use std::io::Write;
             if let Ok(mut f) = std::fs::OpenOptions::new().create(true).append(true).open(format!("/verif/.build/debug-{}.log", std::process::id())) {
@@ -548,6 +647,12 @@ pub fn run_item(prop: &str, tier: &str, idx: usize, only: Option<&Value>) -> MRe
             let devnames: Vec<String> = eo.applied.iter().map(|(_, m)| m.clone()).chain(eo.faults.iter().map(|(i, f)| format!("{}:{}", f, eo.events.get(*i).map(|e| e.name.clone()).unwrap_or_default()))).collect();
             res.outcome(format!("{} after [{}]", otext, devnames.join(",")));
             if !devs.is_empty() || matches!(it.plan, Plan::Trace) { nontrivial.insert(hash64(&format!("{}{:?}", scen.name, devs))); }
+            if matches!(it.plan, Plan::Sched { .. }) {
+                // a schedule is the order in which the workers' tree-relevant syscalls were executed
+                let order: String = eo.events.iter().filter(|e| e.tree_rel).map(|e| char::from(b'0' + e.w as u8)).collect();
+                if eo.switches > 0 { nontrivial.insert(hash64(&order)); }
+                res.max("context_switches", eo.switches as u64);
+            }
             res.max("choice_points_per_execution", ch.trace.len() as u64);
             res.max("syscalls_per_execution", eo.events.len() as u64);
             res.count("syscalls_checked", eo.events.len() as u64);
@@ -579,7 +684,7 @@ pub fn run_item(prop: &str, tier: &str, idx: usize, only: Option<&Value>) -> MRe
         res.bound_completed = Some(0);
     } else {
         let scen = it.scen.clone();
-        let bound = match &it.plan { Plan::Attack { bound, .. } => *bound, Plan::Fault { bound, .. } => *bound, Plan::Trace => 0 };
+        let bound = match &it.plan { Plan::Attack { bound, .. } => *bound, Plan::Fault { bound, .. } => *bound, Plan::Sched { bound } => *bound, Plan::Trace => 0 };
         // determinism self-test: the undisturbed execution twice, identical syscall signatures. A run in which the kernel
         // answered EAGAIN to openat2 by itself (global rename/mount seqlocks disturbed by anything else on the machine)
         // is not a sample of the library's determinism and is repeated.
@@ -665,6 +770,12 @@ pub fn report(prop: &str, tier: &str) -> Report {
             level: "fault_enumeration",
             rule: format!("{} scenarios; for every syscall index i of the scenario's trace ({}) and every errno of the class catalogue (first {} per class) one execution with that single fault injected at i (ptrace: syscall skipped, -errno returned), plus EAGAIN x{{15,16,17}} runs on openat2 and descriptor exhaustion from i on; cold variants include first-use initialisation of the procfs handle; distinct = distinct (scenario, index, fault)", nscen, if th { "every syscall" } else { "path-taking and descriptor-creating syscalls" }, if th { 7 } else { 3 }),
             assumptions: common, exhaustive: true, extra: json!({"scenarios": nscen}),
+        },
+        "C12" | "C13" => Report {
+            level: "model_checking",
+            rule: format!("{} groups of 2-3 concurrent {} callers (same path, prefix/child, siblings under a missing parent, through a link) x backends; callers are separate single-threaded processes stopped at every tree-relevant syscall; every interleaving with <= {} preemptions is executed; non-trivial = distinct interleavings with at least one context switch", its.len(), if prop == "C12" { "mkdir_all" } else { "remove_all" }, if th { "2 (two callers) / 1 (three callers)" } else { "1" }),
+            assumptions: [common, vec!["concurrent libpathrs calls interact only through the filesystem (&self methods, no shared mutable memory besides once-initialised lazies), so processes model threads faithfully".into()]].concat(),
+            exhaustive: true, extra: json!({"groups": its.len()}),
         },
         _ => Report {
             level: "fault_enumeration",
